@@ -164,7 +164,7 @@ fn main() {
         summary.insert("H".into(), s);
         // E: engine-level histories
         let mut re = rng.fork(4);
-        let s = engine_hist::run_stream((n / 10).max(50), &mut re);
+        let s = engine_hist::run_stream((n / 2).max(200), &mut re);
         summary.insert("E".into(), s);
         // R: searcher thread vs writer on a persistent engine (store-after-invalidate clause)
         let seed = std::env::var("VERIF_SEED").ok().and_then(|s| s.parse::<u64>().ok()).unwrap_or(1);
